@@ -129,3 +129,16 @@ impl<'a> ExactSizeIterator for BadCursorB<'a> {
 pub fn fx_cursors(v: &[u32]) -> (GoodCursor<'_>, BadCursorA<'_>, BadCursorB<'_>) {
     (GoodCursor { entries: v, pos: 0, pos_back: v.len() }, BadCursorA { entries: v, pos: 0, pos_back: v.len() }, BadCursorB { entries: v, pos: 0 })
 }
+
+/// R-ORDERPANIC: a debug assertion and a plain assertion that depend on a comparison of priorities ...
+pub fn fx_orderpanic<P: Ord>(a: &P, b: &P, v: &[P]) -> usize {
+    debug_assert!(a <= b, "order violated");
+    assert!(v.first().map_or(true, |x| x >= a));
+    v.len()
+}
+
+/// ... and one that only looks at a length (must not match)
+pub fn fx_orderpanic_ok<P: Ord>(v: &[P], i: usize) -> usize {
+    debug_assert!(i < v.len());
+    i
+}
